@@ -15,7 +15,7 @@ let fmt_obs ((blocks, pos), e) =
   let b = List.map (fun (c, n) -> dec_of_n c ^ ":" ^ dec_of_n n) blocks in
   (if b = [] then "_" else String.concat "," b) ^ "|" ^ dec_of_n pos ^ "|" ^ fmt_end e
 
-(* kind `ardr`: args = file(hex, unused) frames index ops mode seed workers pool segs
+(* kind `ardr`: args = file(hex, unused) frames index ops mode seed workers pool segs qscripts
    frames = csize:len:a:m,... ; the scheduler of the pipeline model is given by <segs>
    (segments separated by ';', action codes by '.'); the poll script of the source (mode, seed)
    has no counterpart in the model: a Pending source is a Submit that is not scheduled yet. *)
@@ -34,19 +34,30 @@ let parse_index s =
   List.map (fun p -> match split_on ':' p with
     | [c; u] -> (n_of_dec c, n_of_dec u) | _ -> failwith "index") (split_on ',' s)
 
-let parse_ops s =
+(* ops; `q<c>:<u>` = polled seek, its poll_complete script is the next segment of <qscripts>
+   (segments separated by ';', one character per poll_complete call, '1' = Pending) *)
+let parse_ops s qs =
+  let scripts = ref (if qs = "_" || qs = "" then [] else split_on ';' qs) in
+  let next_script () =
+    match !scripts with
+    | [] -> []
+    | x :: r -> scripts := r;
+        if x = "_" then [] else List.init (String.length x) (fun i -> x.[i] = '1') in
   if s = "_" then [] else
   List.map (fun p ->
     let t = String.sub p 1 (String.length p - 1) in
     match p.[0] with
-    | 'r' -> Read (n_of_dec t)
-    | 'x' -> ReadExact (n_of_dec t)
-    | 'f' -> FillBuf
-    | 'c' -> Consume (n_of_dec t)
-    | 'a' -> ReadAll (n_of_dec t)
+    | 'r' -> XOp (Read (n_of_dec t))
+    | 'x' -> XOp (ReadExact (n_of_dec t))
+    | 'f' -> XOp FillBuf
+    | 'c' -> XOp (Consume (n_of_dec t))
+    | 'a' -> XOp (ReadAll (n_of_dec t))
     | 'k' -> (match split_on ':' t with
-              | [c; u] -> Seek (pack (n_of_dec c) (n_of_dec u)) | _ -> failwith "seek")
-    | 'u' -> SeekU (n_of_dec t)
+              | [c; u] -> XOp (Seek (pack (n_of_dec c) (n_of_dec u))) | _ -> failwith "seek")
+    | 'q' -> (match split_on ':' t with
+              | [c; u] -> let sc = next_script () in XPollSeek (pack (n_of_dec c) (n_of_dec u), sc)
+              | _ -> failwith "pollseek")
+    | 'u' -> XOp (SeekU (n_of_dec t))
     | _ -> failwith "op") (split_on ',' s)
 
 let parse_segs s =
@@ -112,17 +123,33 @@ let show_writer (blocks, results) =
     | Panic0 -> Some "Panic") results in
   String.concat "," b ^ "|" ^ (if r = [] then "_" else String.concat "," r)
 
+(* kind `abam`: args = data sizes with_pending chunk; poll script codes: 0 = Pending, k+1 = Ready k *)
+let show_recs rs =
+  String.concat "," (List.map (function
+    | RecOk n -> dec_of_n n
+    | RecUnexpectedEof -> "Err:UnexpectedEof"
+    | RecNoFuel -> "NoFuel") rs)
+
 let handle kind a =
   match kind with
+  | "abam" ->
+      let data = bytes_of_hex a.(0) in
+      let sizes = if a.(1) = "_" then [] else List.map int_of_string (split_on ',' a.(1)) in
+      let codes = List.concat_map (fun k ->
+        (if a.(2) = "1" then [nat_of_int 0] else []) @ [nat_of_int (max k 1 + 1)]) sizes in
+      let chunk = nat_of_int (int_of_string a.(3)) in
+      let k = nat_of_int 8 in
+      Some ("sync=" ^ show_recs (sync_bam_case data k) ^ " async=" ^ show_recs (async_bam_case codes chunk data k))
   | "awr" ->
       let t = show_writer (async_writer_case (parse_aops a.(0))) in
       Some ("sync=" ^ t ^ " async=" ^ t)
   | "ardr" ->
-      let f = parse_frames a.(1) and idx = parse_index a.(2) and ops = parse_ops a.(3) in
+      let qs = if Array.length a > 9 then a.(9) else "_" in
+      let f = parse_frames a.(1) and idx = parse_index a.(2) and ops = parse_ops a.(3) qs in
       let w = nat_of_int (int_of_string a.(6)) and p = nat_of_int (int_of_string a.(7)) in
       let segs = parse_segs a.(8) in
-      Some ("sync=" ^ show_hist (sync_reader_case f idx ops)
-            ^ " async=" ^ show_hist (async_reader_case w p segs f idx ops))
+      Some ("sync=" ^ show_hist (sync_reader_xcase f idx ops)
+            ^ " async=" ^ show_hist (async_reader_xcase w p segs f idx ops))
   | "frame" ->
       let file = bytes_of_hex a.(0) in
       let nvalid = nat_of_int (int_of_string a.(1)) in
